@@ -551,6 +551,7 @@ def free_oracles(run):
         on_time = []
         rebases = 0
         ambiguous = 0
+        last_loop_mono = -1
         for i, c in enumerate(trig):
             before = [v for (m, v) in produced if m <= c["mono"] and not (m == c["mono"] and v == c.get("res"))]
             earlier_vals = set(before)
@@ -558,6 +559,7 @@ def free_oracles(run):
             if c["prev"] in earlier_vals:
                 # on time: the scheduled fire time is handed back to the trigger
                 on_time.append(c)
+                last_loop_mono = c["mono"]
                 if c["prev"] > c["wall"] + TOL:
                     f03.append({"key": key, "call": c, "why": "fire time %d consumed before the clock reached it (clock %d)" % (c["prev"], c["wall"])})
                 if c["wall"] - c["prev"] > thr + LATE_SLACK:
@@ -569,8 +571,10 @@ def free_oracles(run):
             # clock-based call: ScheduleJob / ResumeJob in progress, or a misfire re-base
             in_api = any(a["op"] in ("S", "R") and a["mono0"] - TOL <= c["mono"] <= a["mono"] + TOL for a in kapi)
             last = before[-1] if before else None
-            cands = [v for (m, v) in produced if m <= c["mono"]]
-            late = [v for v in cands[-4:] if v < c["prev"] - thr]
+            # which entry was pending is not observable when ScheduleJob calls came in between (their results may never have been
+            # committed): any fire time produced since the loop's last own call (inclusive) may be the pending one
+            cands = [v for (m, v) in produced if last_loop_mono <= m <= c["mono"]] or [v for (m, v) in produced if m <= c["mono"]][-4:]
+            late = [v for v in cands if v < c["prev"] - thr]
             if in_api:
                 counts["api_rebases"] += 1
                 if late:
@@ -578,6 +582,7 @@ def free_oracles(run):
                 continue
             if late:
                 rebases += 1
+                last_loop_mono = c["mono"]
                 continue
             f04.append({"key": key, "call": c, "last_fire_time": last,
                         "why": "re-based on the clock (prev=%d) although the pending fire time %s was not more than the threshold (%d) late: drift" % (c["prev"], last, thr)})
